@@ -158,6 +158,8 @@ func c16Deliver(a *Agent, kind int, from identity.AgentID, id uint64, payload []
 		a.handleStreamClose(from, &protocol.Frame{Type: protocol.FrameStreamClose, StreamID: id})
 	case 2:
 		a.handleStreamReset(from, &protocol.Frame{Type: protocol.FrameStreamReset, StreamID: id, Payload: (&protocol.StreamReset{ErrorCode: 1}).Encode()})
+	case 3: // the downstream side refuses the open
+		a.handleStreamOpenErr(from, &protocol.Frame{Type: protocol.FrameStreamOpenErr, StreamID: id, Payload: (&protocol.StreamOpenErr{RequestID: 1, ErrorCode: 2, Message: "x"}).Encode()})
 	}
 }
 
@@ -190,8 +192,11 @@ func harnessC16Transit() {
 	a.tcpRelay.Insert(e1)
 	a.tcpRelay.Insert(e2)
 	c16Log = nil
-	kind := verif_choose(3)
+	kind := verif_choose(4)
 	fromUp := verif_nondet_bool()
+	if kind == 3 {
+		fromUp = false // an open refusal comes from the downstream side
+	}
 	payload := verif_nondet_bytes(1)
 	if fromUp {
 		c16Deliver(a, kind, e1.UpstreamPeer, e1.UpstreamID, payload)
@@ -264,5 +269,5 @@ func c16Stranger(kinds []int) {
 	}
 }
 
-func harnessC16StrangerClose() { c16Stranger([]int{1, 2}) }
+func harnessC16StrangerClose() { c16Stranger([]int{1, 2, 3}) }
 func harnessC16StrangerData()  { c16Stranger([]int{0}) }
